@@ -19,6 +19,14 @@ func init() { register(&Monitor{ID: "C17", Run: runC17, Self: selfC17}) }
 
 var c17Strs = []string{"", "a", "b", "ab", "abc", "abd", "B", "Z", "a ", " a", "é", "z", "zz", "aa", "\x00", "\xff", "~", string(rune(0x1f600)), "A", "0", "10", "9"}
 
+func init() {
+	var fam []string
+	for _, p := range spec.CollisionPairs {
+		fam = append(fam, p[0], p[1])
+	}
+	c17Families = append(c17Families, fam, fam[:8], fam[8:16]) // strings that collide under common digests
+}
+
 var c17Families = [][]string{
 	{"10", "9", "2", "100", "1", "20", "0", "33", "7"},                                                                 // all decimal numbers
 	{"-1", "-10", "+5", "5", "007", "7", "-0", "0", "12", "1e3", "1000"},                                               // signed / padded numbers
